@@ -3,6 +3,9 @@ CONSTANTS
   Classes = {"parrot", "custom"}
   Servers = {"plain"}
   Modes = {"never", "before", "nosess"}
+  Kinds = {"SetClientRandom", "SetSNI", "RemoveSNI", "EditSuites", "EditSessionId", "ExtInsert", "ExtRemove", "ExtALPN"}
+  SNIAll = FALSE
+  SkipVerify = FALSE
   FixRemoveSNI = FALSE
 INIT Init
 NEXT Next
